@@ -544,7 +544,7 @@ class RewriteSim:
     distinct_measure = "deep_states"
 
     def plan(self, prop, tier):
-        return [("episodes", 4000 if tier == "quick" else 200000)]
+        return [("episodes", 6000 if tier == "quick" else 200000)]
 
     def batch_size(self, stratum):
         return 50
@@ -577,12 +577,12 @@ class RewriteSim:
                 text = "4x + 2x"
             cfg["source"] = "rule-tests"
         elif src < 0.65:
-            vs = rng.choice(["x", "xy", "xyz"])
+            vs = rng.choice(["x", "xy", "xyz", "ab", "tpq"])
             text, env = planted_equation(rng, vs)
             planted = [env]
             cfg["source"] = "planted-equation"
         else:
-            vs = rng.choice(["x", "xy", "xyz"])
+            vs = rng.choice(["x", "xy", "xyz", "ab", "mnk"])
             text = rw_expr(rng, rng.randint(1, 3), vs)
             cfg["source"] = "grammar"
         cfg["start"] = text
@@ -595,7 +595,7 @@ class RewriteSim:
         cfg["rules"] = sorted(chosen)
         cfg["weights"] = {r: rng.choice([1, 1, 2, 4]) for r in cfg["rules"]}
         cfg["policy"] = rng.choice(["uniform", "newest", "oldest", "round-robin", "deepest"])
-        cfg["n_ops"] = rng.choice([4, 8, 12, 24, 24])
+        cfg["n_ops"] = rng.choice([4, 8, 12, 24, 24, 40])
         cfg["query_p"] = rng.choice([0.0, 0.1, 0.3])
         return cfg
 
